@@ -11,7 +11,7 @@
    the two differ for GGetCells (Some area) only. *)
 From Coq Require Import List ZArith Lia Bool Arith.
 Import ListNotations.
-Require Import Vault Row Table Grid Tableabs Tablexmlproof TableB TableBabs TableBproof TableG TableGspec TableGproof TableGproof2 TableGproof3 TableGsweep.
+Require Import Vault Row Table Grid Tableabs Tablexmlproof TableB TableBabs TableBproof TableG TableGspec TableGproof TableGproof2 TableGproof3 TableGproof4 TableGproof5 TableGproof6 TableGproof7 TableGsweep.
 Open Scope Z_scope.
 
 (* ---- the full statement: on every well-formed table whose rows fit its columns, every getter with any coordinates
@@ -21,11 +21,21 @@ Definition C08_full : Prop := forall (t : tstate) (q : getter), WF t -> fits t =
 (* C08_full is FALSE of the code as it is: C08_get_cells_pinned_refuted below (F30).  What holds of the code as it is: *)
 Definition C08_full_as_stored : Prop := forall (t : tstate) (q : getter), WF t -> fits t = true -> C08_holds_as_stored t q.
 
-(* proved parts of it, for ALL tables: (1) copies are Detached and so no mutation of them reaches the table;
-   (2) expanding reads return no repeat; (3) the single-object getters get_cell / get_row / get_column meet the whole
-   specification, out-of-area included.  The coordinates and contents of the multi-object getters (get_cells, cells, get_rows,
-   rows, traverse, get_columns, columns, traverse_columns, get_column_cells, Row.traverse, Row.cells) are proved in the
-   small scope below and exercised by the correspondence; that part of C08_full is not proved in general. *)
+
+(* ---- FULL, for every well-formed table whose rows fit its columns and every getter of the alphabet with any coordinates:
+        the code as it is returns exactly the objects the as-stored specification lists — number, nesting, coordinates stamped =
+        addressed logical position, content of that position, no repeat when the read expands, Detached where a copy is documented ---- *)
+Theorem C08_all_getters_as_stored : C08_full_as_stored.
+Proof. exact all_getters_as_stored. Qed.
+Print Assumptions C08_all_getters_as_stored.
+
+(* ---- and the DOCUMENTED reading (C08_full) for every getter except get_cells(area), whose docstring is refuted below (F30) ---- *)
+Theorem C08_all_getters_documented_except_get_cells_area : forall (t : tstate) (q : getter), WF t -> fits t = true ->
+  is_area_get_cells q = false -> C08_holds t q.
+Proof. exact all_getters_documented. Qed.
+Print Assumptions C08_all_getters_documented_except_get_cells_area.
+
+(* components (kept; the first two hold without the fits hypothesis and also for the candidate repair of F30): *)
 Theorem C08_copies_are_detached_partial : forall (pad : bool) (t : tstate) (q : getter), promises_copy q = true ->
   Forall (fun h => h = Detached) (res_handles (m_get false pad t q)).
 Proof. exact copies_detached. Qed.
